@@ -2,6 +2,7 @@
 #[cfg(kani)]
 pub mod verif_kani {
     use super::*;
+    #[allow(unused_imports)] use crate::key::{PrivateKey, Proof, PublicKey, ReconnectData, Salt, SessionKey}; #[allow(unused_imports)] use crate::normalized_string::NormalizedString;
     use core::sync::atomic::{AtomicU8, Ordering};
     use crate::normalized_string::verif_kani::verif_make;
     static M2: [AtomicU8; 20] = [const { AtomicU8::new(0) }; 20];
